@@ -30,6 +30,8 @@ structure NodeFacts (c : RCfg) (e : Env) (ty : Nat) (ctx : Ctx) (off : Nat) (s s
   mult : MultOk true arms items
   ord : InOrder e (.block ty info fields ch cm) items
   canon : OT.posAll e.code items → Canon e (.block ty info fields ch cm) items
+  /-- without position order: canonical relation to a reordering of position-restricted siblings (at every depth) -/
+  sibc : ∃ items', OT.SibPL e.code items items' ∧ Canon e (.block ty info fields ch cm) items'
   lexf : ∀ f ∈ fields, FieldLex f
   lexv : OT.lexVL items
   eok : isB = true → ∀ text off, items.getLast? = some (.cmt text off) → isLineCmt text = true → 1 ≤ info.endOff
